@@ -500,3 +500,41 @@ package transport
 //@     each iter_calls(closeByTransport) == 1 && iter_arg(closeByTransport, 0, 0) == c && !(c in t.conns) && !(c in t.idleConns)
 //@ func fieldfn:ReuseConnTransport.ctxCancel
 //@   log ctxCancel
+
+// Constructors: the invariants assumed everywhere above hold for a new object.
+//@ func NewDnsConn [C01, C09, C07]
+//@   requires conn != nil
+//@   modifies *
+//@   ensures result != nil && fresh(result) && result.c == conn && result.maxCq >= 1 && result.closeNotify != nil
+//@   ensures calls(readLoop) == 1
+//@ func NewPipelineTransport [C09]
+//@   modifies *
+//@   ensures result != nil && fresh(result) && result.maxLazyConnQueue >= 1 && result.logger != nil
+//@ func NewReuseConnTransport [C09]
+//@   modifies *
+//@   ensures result != nil && fresh(result) && result.ctx != nil && result.logger != nil
+//@ func setDefaultGZ
+//@   requires i != nil
+//@   modifies *i
+//@   ensures *i == ite(s > 0, s, d)
+//@ func setNonNilLogger
+//@   requires i != nil
+//@   modifies *i
+//@   ensures *i != nil
+
+// ---------------------------------------------------------------------------------------------
+// DoQ exchanger (C01): one stream per query; the id is zeroed on the wire copy only (RFC 9250
+// 4.2.1) and the caller's id is restored in the reply; q itself is not modified.
+//@ chanmsg res (v) noclose: ((v.resp != nil) != (v.err != nil)) && (v.resp != nil ==> len(*v.resp) >= 12)
+//@ func (ote *quicReservedExchanger) ExchangeReserved [C01, C07]
+//@   requires ote != nil && ote.stream != nil && ctx != nil && len(q) >= 12
+//@   modifies *
+//@   ensures[C07] rxOK(resp, err)
+//@   ensures calls(streamWrite) <= 1
+//@   ensures calls(streamWrite) == 1 ==> atcall(streamWrite, 0, wireCopy(arg(streamWrite, 0, 1), q, 0, true))
+//@   ensures resp != nil ==> be16(*resp) == old(be16(q))
+//@   ensures resp != nil ==> calls(chanRecv) == 1 && resp == ret(chanRecv, 0, 0).resp
+//@ func (ote *quicReservedExchanger) ExchangeReserved$1 [C01]
+//@   requires stream != nil && rc != nil
+//@   modifies *
+//@   ensures calls(chanSend) == 1 && calls(ReadRawMsgFromTCP) == 1 && arg(chanSend, 0, 0) == rc
